@@ -51,7 +51,7 @@ pub struct Node {
     pub id: usize,
     pub canary: u32,
     pub slots: UnsafeCell<[Option<Cc<Node>>; 2]>,
-    /// Owning field that `Trace` deliberately does NOT report.
+    /// Owning field that `Trace` deliberately does NOT report (dropped after the traced slots).
     pub untraced: UnsafeCell<Option<Cc<Node>>>,
     #[cfg(feature = "weak-ptrs")]
     pub wslot: UnsafeCell<Option<Weak<Node>>>,
@@ -265,6 +265,9 @@ unsafe impl Trace for Node {
         // `untraced` is deliberately not traced; weak pointers trace nothing
         #[cfg(feature = "weak-ptrs")]
         self.wslot().trace(ctx);
+        // what derive(Trace) does: every field is handed to the collector, the cleaner included (it reports nothing)
+        #[cfg(feature = "cleaners")]
+        self.cleaner.trace(ctx);
     }
 }
 
@@ -352,6 +355,15 @@ fn finalize_action(this: &Node, id: usize) {
                 nested_collect_request();
             }
             F_UNSTASH_ALLOC => {
+                // buffer some live objects (one of two pointers dropped), release one program-held pointer, then allocate
+                for i in 0..MAXN {
+                    if let Some(c) = &w.stash[i] {
+                        let extra = c.clone();
+                        predict_alive(i);
+                        drop(extra);
+                    }
+                }
+                crate::h_api::buffer_probe();
                 for i in 0..MAXN {
                     if w.stash[i].is_some() {
                         let c = w.stash[i].take();
